@@ -366,6 +366,7 @@ type mustOpts struct {
 	skipErrEdges bool            // do not follow the true edge of `err != nil`
 	stopAt       func(ssa.Instruction) bool
 	panicIsExit  bool // treat panic blocks as exits too (default: only returns)
+	skipEdge     func(b *ssa.BasicBlock, succIdx int) bool // do not follow these edges
 }
 
 // isErrNonNil reports, for an If, which successor index is the "error" edge
@@ -466,6 +467,9 @@ func (p *Program) EscapesWithout(fn *ssa.Function, hit func(ssa.Instruction) boo
 		}
 		for k, s := range b.Succs {
 			if k == skip {
+				continue
+			}
+			if o.skipEdge != nil && o.skipEdge(b, k) {
 				continue
 			}
 			if !seen[s] {
@@ -705,4 +709,37 @@ func (p *Program) AcceptPaths(fn *ssa.Function, idx int, expand func(*ssa.Functi
 		out = append(out, alts...)
 	}
 	return out, true
+}
+
+// instrReaches: some CFG path leads from a to b (a executed before b on that path).
+func instrReaches(a, b ssa.Instruction) bool {
+	if a.Block() == b.Block() {
+		ia, ib := -1, -1
+		for i, in := range a.Block().Instrs {
+			if in == a {
+				ia = i
+			}
+			if in == b {
+				ib = i
+			}
+		}
+		if ia < ib {
+			return true
+		}
+	}
+	seen := map[*ssa.BasicBlock]bool{}
+	work := append([]*ssa.BasicBlock{}, a.Block().Succs...)
+	for len(work) > 0 {
+		x := work[len(work)-1]
+		work = work[:len(work)-1]
+		if seen[x] {
+			continue
+		}
+		seen[x] = true
+		if x == b.Block() {
+			return true
+		}
+		work = append(work, x.Succs...)
+	}
+	return false
 }
